@@ -33,7 +33,7 @@ def replay(pid, path):
     if not tr:
         print("nothing to replay")
         return 2
-    v = vlib.validate_trace("TimeWarpTrace.tla", "TimeWarpTrace.cfg", os.path.join(path, tr[0]),
+    v = vlib.validate_trace("TimeWarpTrace.tla", "TimeWarpTrace.cfg", os.path.join(path, tr[0]), model=os.path.join(path, "model.json"),
                             ref=os.path.join(path, "serial.ndjson"))
     print(json.dumps(v.get("res")))
     if v["verdict"] == "bad":
